@@ -245,8 +245,54 @@ void h_k0(void) { vp_in_k = vp_k; long r = run_prefix(); (void) r; __CPROVER_ass
                 assumptions=["the constructor (construct_spanner) emits nothing - it has no access to the output iterator"], trusted=["cbmc 6.11 + DFCC"])
 
 
+def _sort_cmp():
+    """K17c: the order construct_spanner scans the edges in.  The statement that sorts `sorted_edges` must be std::sort / std::stable_sort
+    over the whole vector with a comparator lambda; the lambda's body is extracted (`_weight_map[e]` -> the edge's weight) and proved,
+    for all pairs of non-NaN doubles, to be exactly `w(e1) < w(e2)`.  With the contract of std::sort (the result is a permutation ordered
+    w.r.t. the comparator) this discharges the precondition of K17a that the edges are scanned by non-decreasing weight."""
+    import re
+    log = []
+    rel = "include/parmcb/detail/approx_spanner.hpp"
+    text = X.src(rel)
+    m = re.search(r"std::(?:stable_)?sort\(sorted_edges\.begin\(\), sorted_edges\.end\(\),\s*\[&\]\s*\(const Edge &(\w+), const Edge &(\w+)\)\s*\{", text)
+    if not m or len(re.findall(r"std::(?:stable_)?sort\(sorted_edges\.begin\(\)", text)) != 1:
+        raise Undecided("extraction out of date: construct_spanner does not sort sorted_edges with std::sort / std::stable_sort and a comparator lambda")
+    e1, e2 = m.groups()
+    body = X.body_after(text, re.escape(m.group(0)[:-1]), "sort comparator of construct_spanner")
+    log.append(dict(pattern="std::sort(sorted_edges..., [&](const Edge &%s, const Edge &%s) {BODY})" % (e1, e2), replacement="BODY", fired=1, expected=1, kind="extract", note="comparator lambda body"))
+    body = X.drop_local_const(body, log)
+    body = X.rewrite(body, [
+        (r"_weight_map\[%s\]" % re.escape(e1), "w1", (1, 4), "container-api", "weight of the first edge"),
+        (r"_weight_map\[%s\]" % re.escape(e2), "w2", (1, 4), "container-api", "weight of the second edge"),
+        (r"boost::get\(_weight_map, %s\)" % re.escape(e1), "w1", (0, 4), "container-api", ""),
+        (r"boost::get\(_weight_map, %s\)" % re.escape(e2), "w2", (0, 4), "container-api", ""),
+        (r"std::numeric_limits<WeightType>::epsilon\(\)", "2.220446049250313e-16", (0, 4), "type-binding", "WeightType = double"),
+        (r"\bWeightType\b", "double", (0, 8), "type-binding", ""),
+        (r"\bauto\b", "double", (0, 8), "type-binding", "locals of the comparator hold weights"),
+    ], log)
+    fn = r"""
+#include <stdbool.h>
+bool cmp(double w1, double w2)
+__CPROVER_requires(w1 == w1 && w2 == w2)
+__CPROVER_assigns()
+/* the scan order is the order of the weights themselves: no tolerance, no secondary key that could override a strict difference */
+__CPROVER_ensures(__CPROVER_return_value == (w1 < w2))
+{%(BODY)s}
+double vp_in_w1, vp_in_w2;
+void h_cmp(void) { double w1, w2; vp_in_w1 = w1; vp_in_w2 = w2; bool r = cmp(w1, w2); (void) r; __CPROVER_assert(0, "VP_REACH end"); }
+""" % dict(BODY=body)
+    return dict(unit="K17c_sort_comparator", site="K17c_sort_comparator", lang="c", source=rel + " (construct_spanner: comparator of the edge sort)", rewrites=log,
+                text=fn, entry="h_cmp", enforce="cmp", mode="proof", timeout=600,
+                bound="loop-free, full domain: every pair of non-NaN doubles",
+                dropped=["the std::sort call itself (by its contract: permutation ordered w.r.t. the comparator)"],
+                functions={"construct_spanner: edge order comparator": "proved"},
+                assumptions=["contract of std::sort / std::stable_sort; WeightType = double"],
+                trusted=["cbmc 6.11 + DFCC, SAT back end"])
+
+
 def units(tier):
     big = tier == "thorough"
     return [X.guarded("K17a_construct_spanner", _construct, False, 32 if big else 12),
             X.guarded("K18a_translate_cycles", _translate, False, 4 if big else 3, 5 if big else 4),
-            X.guarded("K18c_run_rejects_k0", _k0)]
+            X.guarded("K18c_run_rejects_k0", _k0),
+            X.guarded("K17c_sort_comparator", _sort_cmp)]
